@@ -172,6 +172,10 @@ def _kernels():
     reg('erode_u8', ['f'], lambda I: mh.erode(g(I, 'f')))
     # the structuring element itself is an input shared by the concurrent calls
     reg('erode_shared_bc', ['f', 'bc3'], lambda I: mh.erode(g(I, 'f'), g(I, 'bc3')))
+    # extrema / rank filters with an explicit structuring element of the image's dtype (passed through uncopied)
+    reg('locmax_shared_bc', ['f', 'bc3'], lambda I: mh.locmax(g(I, 'f'), g(I, 'bc3')))
+    reg('regmin_shared_bc', ['f', 'bc3'], lambda I: mh.regmin(g(I, 'f'), g(I, 'bc3')))
+    reg('median_shared_bc', ['f', 'bc3'], lambda I: mh.median_filter(g(I, 'f'), g(I, 'bc3')))
     reg('dilate', ['f'], lambda I: mh.dilate(g(I, 'f')))
     reg('dilate_b', ['b'], lambda I: mh.dilate(g(I, 'b'), np.ones((3, 3), bool)))
     reg('open', ['b'], lambda I: mh.open(g(I, 'b')))
@@ -269,7 +273,7 @@ RAISING = ['raise_cooccurence_negative', 'raise_native_convolve_mode', 'raise_na
 IN_KERNEL_RAISING = RAISING[:3]
 NATIVE_PROBES = ['native_center_of_mass', 'native_convexhull']
 # kernels drawn for random mixes (names only: the registry itself lives in the child)
-REGULAR = ['erode', 'erode_u8', 'erode_shared_bc', 'dilate', 'dilate_b', 'open', 'close', 'cwatershed', 'cwatershed_lines', 'hitmiss',
+REGULAR = ['erode', 'erode_u8', 'erode_shared_bc', 'locmax_shared_bc', 'regmin_shared_bc', 'median_shared_bc', 'dilate', 'dilate_b', 'open', 'close', 'cwatershed', 'cwatershed_lines', 'hitmiss',
            'majority_filter', 'locmax', 'regmax', 'regmin', 'close_holes', 'distance', 'thin', 'bwperim', 'borders',
            'border', 'label', 'labeled_sum', 'labeled_max', 'labeled_size', 'bbox', 'labeled_bbox', 'relabel',
            'remove_bordering', 'remove_regions', 'is_same_labeling', 'perimeter', 'convolve', 'convolve_u8',
@@ -281,7 +285,7 @@ REGULAR = ['erode', 'erode_u8', 'erode_shared_bc', 'dilate', 'dilate_b', 'open',
 FAMILY = {}
 for _k in REGULAR + RAISING + NATIVE_PROBES:
     FAMILY[_k] = ('raising' if _k.startswith('raise_') else
-                  'morphology' if _k in ('erode', 'erode_u8', 'erode_shared_bc', 'dilate', 'dilate_b', 'open', 'close', 'hitmiss',
+                  'morphology' if _k in ('erode', 'erode_u8', 'erode_shared_bc', 'locmax_shared_bc', 'regmin_shared_bc', 'median_shared_bc', 'dilate', 'dilate_b', 'open', 'close', 'hitmiss',
                                          'majority_filter', 'locmax', 'regmax', 'regmin', 'close_holes', 'thin',
                                          'bwperim', 'euler') else
                   'watershed' if _k.startswith('cwatershed') else
@@ -896,7 +900,7 @@ def cases(rng, tier):
                         calls=[[k, rng.randint(0, 10 ** 6), sz] for sz in sizes]))
     # one SHARED read-only input hammered by many threads through a single kernel: the reference-count judge sees any
     # wrapper built or copied by value inside a released region (helpers called per pixel / per seed)
-    for k in ['surf_interest_points_integral', 'cwatershed', 'erode_shared_bc', 'convolve', 'template_match', 'labeled_sum',
+    for k in ['surf_interest_points_integral', 'cwatershed', 'erode_shared_bc', 'locmax_shared_bc', 'regmin_shared_bc', 'median_shared_bc', 'convolve', 'template_match', 'labeled_sum',
               'center_of_mass_labels', 'surf_descriptors']:
         if k in REGULAR:
             out.append(dict(kind='stress', threads=rng.choice([8, 16]), shared=True, reps=dict(quick=6, thorough=40, search=10)[tier],
